@@ -62,7 +62,7 @@ fi
 
 # ---- link (no -fopenmp / -lgomp: the OpenMP runtime is the simulator's)
 WRAP=""
-for s in fopen fclose fread fwrite fseek ftell fflush remove open close fstat mmap munmap madvise malloc calloc realloc free strdup posix_memalign aligned_alloc ZSTD_createDCtx ZSTD_decompressDCtx; do WRAP="$WRAP -Wl,--wrap=$s"; done
+for s in fopen fclose fread fwrite fseek ftell fflush remove open close fstat mmap munmap madvise malloc calloc realloc free strdup posix_memalign aligned_alloc ZSTD_createDCtx ZSTD_decompressDCtx fileno fsync fdatasync posix_fadvise read pread write lseek stat access rename unlink fseeko ftello; do WRAP="$WRAP -Wl,--wrap=$s"; done
 OUT=$B/simrun-$H-$HH
 if [ ! -x "$OUT" ]; then
   rm -f "$B"/simrun-*
